@@ -1039,8 +1039,11 @@ class Engine:
             v = f.v
             if isinstance(v, types.MethodType):
                 return self.call_function(v.__func__, [self.wrap(v.__self__)] + list(args), kwargs, None, node)
-            if v in self.models:
-                return self.models[v](self, args, kwargs)
+            try:
+                if v in self.models:
+                    return self.models[v](self, args, kwargs)
+            except TypeError:
+                pass
             if isinstance(v, type) and issubclass(v, BaseException):
                 return SExc(v, args, dict(kwargs))
             if isinstance(v, type) or isinstance(v, types.FunctionType):
@@ -2158,32 +2161,32 @@ def _spec_uf(self, fn, args, kwargs):
         app = f(*allargs)
         res = T(app)
         self.axiom(app != Val.VAbsent)      # a specification function denotes a python value
-        fk = getattr(fn, '_facts', None)
-        if fk is not None and not getattr(self, '_in_facts', False):
-            # a lemma about the function (proved separately, see lemmas/): instantiated here
-            self._in_facts = True
-            old_fc, old_ud = self.fail_conds, self.unfold_depth
-            self.fail_conds = None
-            self.unfold_depth = 1000
-            try:
-                r = self.call_function(fk, list(args) + [res], {})
-                self.scoped_assume(_zb(self.truth(r)))
-            finally:
-                self._in_facts = False
-                self.fail_conds, self.unfold_depth = old_fc, old_ud
-            self.assumptions.add('lemma about %s used: %s' % (fn.__name__, (fk.__doc__ or fk.__name__).strip()))
         rk = getattr(fn, '_result_kind', None)
         if rk == 'dict':
             self.axiom(Val.is_VDict(app))
         elif rk == 'list':
             self.axiom(Val.is_VList(app))
+    fk = getattr(fn, '_facts', None)
+    if fk is not None and not getattr(self, '_in_facts', False):
+        # a lemma about the function (proved separately, see lemmas/): instantiated here
+        self._in_facts = True
+        old_fc, old_ud = self.fail_conds, self.unfold_depth
+        self.fail_conds = None
+        self.unfold_depth = 1000
+        try:
+            r = self.call_function(fk, list(args) + [res], {})
+            self.scoped_assume(_zb(self.truth(r)))
+        finally:
+            self._in_facts = False
+            self.fail_conds, self.unfold_depth = old_fc, old_ud
+        self.assumptions.add('lemma about %s used: %s' % (fn.__name__, (fk.__doc__ or fk.__name__).strip()))
     # the definitional equation is recorded guarded by the scope it was
     # evaluated in, so it is re-derived when the same application occurs under
     # different scope conditions
     key = (fn.__name__,) + tuple(vals.tid(t) for t in allargs) + ('|',) + tuple(vals.tid(x) for x in self.scopes)
     stack = self.__dict__.setdefault('unfold_stack', [])
     allowed = getattr(self, 'unfold_only', None)
-    if not _mentions_binder(allargs, self.binders) and self.unfold_depth < 1000 \
+    if not getattr(fn, '_opaque', False) and not _mentions_binder(allargs, self.binders) and self.unfold_depth < 1000 \
             and (allowed is None or fn.__name__ in allowed) \
             and stack.count(fn.__name__) < getattr(fn, '_unfold', 1) and len(stack) < 5:
         if self.unfolded is None:
